@@ -176,7 +176,8 @@ CASES_PER_FILE = 250
 
 
 def _coqc_file(path: Path) -> tuple[int, str]:
-    r = subprocess.run(["timeout", "900", "coqc", "-Q", str(COQ), "Pamiq", str(path)],
+    # memory and time caps: a cases file that blows up must fail, not take the machine down
+    r = subprocess.run(["bash", "-c", 'ulimit -v 6000000; exec timeout 300 coqc -Q "$0" Pamiq "$1"', str(COQ), str(path)],
                        capture_output=True, text=True, cwd=path.parent)
     return r.returncode, r.stdout + r.stderr
 
